@@ -46,7 +46,7 @@ import z3
 
 from .. import core as C
 from .. import tensor as T
-from ..core import BOOL, INT, REAL, Builtin, NamedTuple, PyRaise, Sym, Unsupported
+from ..core import BOOL, INT, REAL, NamedTuple, PyRaise, Sym, Unsupported
 from ..tensor import Tensor
 from . import LIB
 from .ext_symlist import SymList
@@ -381,10 +381,24 @@ def oblige_hinted(E, name, goal, hints, assume_after=False, only=None):
         st.oblige(name, hinted, assume_after=False, using=[])
     is_canary = any(part.startswith("canary") for part in name.split("."))
     if not is_canary and len(st.results) > n0 and st.results[-1].verdict != "discharged":
-        # not provable from the chosen instances: that is no refutation.  Decide the goal
-        # against ALL hypotheses (ground instantiation + quantifiers) and keep that verdict.
+        # not provable from the chosen instances: that is no refutation
         st.results.pop()
-        st.oblige(name, g, assume_after=False)
+        if only is not None or not st.qfacts:
+            # concrete sizes / ground context: decide against the COMPLETE context (all hypotheses,
+            # quantified ones checked by z3 itself) - a counter-model found there is genuine
+            st.oblige(name, g, assume_after=False)
+        else:
+            # symbolic sizes: retry with every pool instance of the hinted hypotheses (bounded time);
+            # still unproved means UNDECIDED - a model of a subset of the hypotheses refutes nothing
+            from ..state import ObligationResult, prove
+
+            qf = [q for q in st.qfacts if any(q.name.startswith(p) for p, _ in hints)]
+            v, backend, dt, _m, _s = prove(st.pc, qf, g, extra_pool=list(st.pool), timeout_ms=10000, quick=True)
+            if v == "unsat":
+                st.results.append(ObligationResult(name, "discharged", backend, dt))
+            else:
+                st.results.append(ObligationResult(name, "undecided", "z3-hinted", dt,
+                                                   detail="[not provable from the hinted hypotheses; no verified counter-model] " + str(z3.simplify(g))[:500]))
     if assume_after:
         st.assume(g)
 
